@@ -237,6 +237,14 @@ fn check_operands(f: &LocalFunction, log: &[String], mode: &str) -> Result<(), S
         }
         if e.starts_with('>') {
             seq_stack.pop();
+            // nothing is reported between the end of a sequence and the next event of the walk
+            let mut j = k + 1;
+            while j < log.len() && !is_struct_event(&log[j]) {
+                if is_entity_event(&log[j]) {
+                    return Err(format!("{}: entity {} reported again after the end of sequence {} (every operand is reported exactly once)", mode, log[j], &e[1..]));
+                }
+                j += 1;
+            }
             k += 1;
             continue;
         }
